@@ -355,7 +355,7 @@ theorem C09_conn_inv_step (cfg : Cfg) (s : St) (op : Op) (h : Framing.Inv s.pb) 
     | setRespTimeout ms => rfl
     | acquire => rfl
     | register id => rfl
-    | release id => exact PbF.pb_releaseIfUsed _ id
+    | release id => exact PbF.pb_releasePacketId _ id
     | erase id => exact PbF.pb_eraseStoredPublish _ id
     | restoreHandled ids => rfl
     | restorePackets ps => exact PbF.pb_restorePackets ps _
